@@ -408,6 +408,7 @@ type Oblig struct {
 	ValueNames []string
 	Trace string
 	WallMs int64
+	Cover  bool // reachability check: must NOT be refutable
 	Variants func() []string // weaker queries (dangerous hypotheses dropped), tried when the full one is undecided
 }
 
@@ -571,4 +572,20 @@ func (E *Engine) rootOf(lv *LVal) string {
 		return "var<" + typeKey(lv.Root) + ">"
 	}
 	return E.rootName(lv.Root)
+}
+
+// cover emits a reachability (anti-vacuity) check: the current path condition
+// must be satisfiable. It fails only if a solver refutes it.
+func (E *Engine) cover(st *State, site, what, pos string) {
+	if E.dry > 0 || st.dead || E.relSilence {
+		return
+	}
+	c := E.cur
+	ob := &Oblig{Name: fmt.Sprintf("%s/cover#%s", c.short, site), Kind: "cover", Func: c.key, Goal: what, Pos: pos, PathNo: c.paths, Cover: true, Trace: strings.Join(st.path, ">")}
+	for p := range c.props {
+		ob.Props = append(ob.Props, p)
+	}
+	sort.Strings(ob.Props)
+	ob.SMT = E.render(st.pc, "false", nil)
+	E.Obligs = append(E.Obligs, ob)
 }
